@@ -5,18 +5,52 @@ Sub-checks
            <= 4) and rmse in {1, 0.1, 1e-3}, through the criteria object of GilesConvergenceCriteria:
            N_l non-negative integers; sum_l V_l/N_l (0/0 read as 0) <= rmse^2 - (bias tolerance)^2, the consequence of the
            statement's two clauses. Nothing is read from the source: the bias tolerance is measured from the behaviour of the
-           stopping test (sub-check budget), so the variance budget is what the stopping test leaves of rmse^2.
- alloc0    the same with zero costs in the alphabet (the statement's "including zeros"): reported under its own key.
- budget    bias tolerance of the stopping test measured behaviourally: for alpha in {0.5, 1, 2} the largest last-level mean
-           the criterion accepts is found by bisection (ml = (x, x, x)), giving tol(alpha) = sup rem accepted / rmse; then
-           tol^2 + share <= 1 + 1e-6.
+           stopping test (sub-check budget), so the variance budget is what the stopping test leaves of rmse^2. Three fixed
+           probe vectors are allocated before and after the enumeration of a case and must give the same sizes (the allocation
+           is a function of its arguments).
+ alloc0    the same with zero costs in the alphabet (the statement's "including zeros"): reported under its own key
+           (open known finding: a zero-cost level with positive variance).
+ budget    bias tolerance of the stopping test measured behaviourally: for alpha in {0.1, 0.25, 0.4, 0.5, 1, 2} the largest
+           last-level mean the criterion accepts is found by bisection (ml = (x, x, x)), giving tol(alpha) = sup rem accepted /
+           rmse; then tol^2 + share <= 1 + 1e-6.
+ rays      the same measurement in EVERY direction of the last three level means, not only the diagonal: for each direction d
+           in {0, 0.25, 1, 4}^3 without the origin (decreasing, flat, increasing, one level dominating, levels vanishing), preceded by no
+           / one / two further levels, alpha in {0.1, 0.25, 0.5, 0.6, 1, 2}, rmse in {1, 0.1, 1e-3}: sup x accepted for ml = x d by
+           bisection; the accepted bias estimate x * max(d_L, d_{L-1}/2^a, d_{L-2}/4^a)/(2^a-1) (Giles' remainder, written out
+           in giles_estimate: which end of the vector is the finest level is part of the reference) must satisfy
+           estimate^2 + variance share <= rmse^2. One-sided: a criterion that is stricter than needed is not reported.
  shape     the criterion is monotone (accepting ml implies accepting any smaller ml on a lattice), and looks at the last three
            levels as stated in Giles' remainder estimate (checked on the lattice {1e-3, 1e-2, 1e-1, 1}^3 x alpha).
- loop      the C05 choice exploration with a different oracle, per run: terminates within the horizon; no simulate call and
-           no next_level beyond maximum_level; returns only when the last evaluation of the bias test was True or the maximum
-           level is reached; at return every level has Nl >= N*_l / 1.01 with N* recomputed by the criteria object from the
+ loop      the C05 choice exploration with a different oracle, per run (judge_run): terminates within the horizon; no
+           simulate call and no next_level beyond maximum_level; the weak rate passed to the stopping test is the configured
+           one or the regression of the very means it is tested on; returns only when the last evaluation of the bias test
+           was True or the maximum level is reached; the verdict is NOT taken on trust: below the maximum level the bias
+           estimate recomputed from the tested means with the reference weak rate must be within sqrt(rmse^2 - variance share
+           rmse^2); the tested means are the reported sample means (the engine may only raise levels >= 3: its work-around for
+           vanishing means); at return every level has Nl >= N*_l / 1.01 with N* recomputed by the criteria object from the
            reported vl, cl.
-Not covered: other ConvergenceCriteria objects a user may pass; rmse outside the three values; real coupling processes.
+ profile   the same oracle on scripted NON-GEOMETRIC level means (the regimes of loop are all geometric): m_l = 0.5 2^(-a l)
+           mult_l, a in {0.6, 1, 2}, mult = 1 except on one level or two levels (quick: adjacent; thorough: any pair) where it
+           ranges over {0, 1/8, 8, 64} (a mean that vanishes / dips / rises / dominates), every position 0..maximum_level; the
+           plain profiles additionally x rmse {0.05, 0.2, 1} x rates {regressed, all given, alpha only given, beta+gamma only
+           given, all given through compute_convergence_rates(Blumenthal-Getoor index)} x level sd {1e-3 rmse (no extra samples), rmse (allocation passes)} x criteria {default, shared
+           GilesConvergenceCriteria object, ConvergenceCriteria of the two Giles functions, criteria_run_to_maximum_level} x
+           (initial_level, initial_mc_paths) {(2, 4), (3, 7)}. Thorough: maximum_level 6 and 8, both rmse and both sd on the
+           bumped profiles.
+ history   several pricings in ONE process (the statement quantifies over histories; the library's scripts price a list of
+           rmse one after the other). First pricing: scenario {fast decay, slow decay, a rising level mean} x rates (4 kinds) x
+           construction route of the rates {explicit object, DEFAULT ARGUMENT of ConfigurationMultiLevel (one instance shared
+           by all configurations), None} x operation {price, for the default route also price_with_constant_mc_paths_and_level}.
+           Later pricing: scenario {slow, fast with other maximum_level / initial paths, two rising means with another rmse} x
+           menu {same configuration object + new engine, same engine (coupling process re-assigned), deepcopy of the
+           configuration, new configuration through the default argument / None / explicit regressed / explicit alpha-only,
+           public attributes of the old configuration re-assigned (rates regressed / given / beta+gamma, criteria, levels,
+           paths)}. Thorough: a third pricing from a reduced menu, two more scenarios each. Oracle: judge_run on every
+           pricing, and (L, Nl, converged, sequence of bias tests, weak rates) of every pricing equals that of the SAME
+           pricing run alone in fresh, explicitly constructed objects.
+Not covered: ConvergenceCriteria built from user functions other than the three of criteria.py; rmse outside the stated values;
+real coupling processes; initial_level < 2 (the bias test needs three levels: Engine.price raises IndexError there - the
+statement is silent); initial_level > maximum_level; initial_mc_paths = 0; nb_of_processes > 1 (C08).
 """
 from __future__ import annotations
 
@@ -32,10 +66,12 @@ from mc import mlmc_driver as D
 PID = "C06"
 LEVEL = "model_checking"
 RULE = (
-    "alloc: complete product of variance/cost alphabets for vector lengths 1..5 x 3 rmse; loop: every configuration of the "
-    "C05 lattice x every regime sequence with at most D deviations, one evaluation = one complete run of the real "
-    "Engine.price; non-trivial = the case compared at least one allocation / completed at least two distinct loop "
-    "trajectories; states = distinct loop trajectories, transitions = choice points taken"
+    "alloc: complete product of variance/cost alphabets for vector lengths 1..5 x 3 rmse; rays: every direction of the stated "
+    "lattice x alpha x rmse; loop: every configuration of the C05 lattice x every regime sequence with at most D deviations; "
+    "profile: every scripted level-mean profile of the stated alphabet x options; history: every sequence of 2 (thorough: 3) "
+    "pricings of the stated scenario x route menu; one evaluation = one complete run of the real Engine.price (or one call "
+    "of the criteria functions); non-trivial = the case compared at least one allocation / completed at least two distinct "
+    "runs; states = distinct loop trajectories / run signatures, transitions = choice points taken"
 )
 ASSUMPTIONS = C5.ASSUMPTIONS + [
     "the variance share and the bias tolerance are measured from the behaviour of compute_mc_paths / criteria, not read "
@@ -64,6 +100,9 @@ def cases(tier):
         out.append({"sub": "alloc", "n": n, "v0": None, "v1": None, "zero_cost": True})
     out.append({"sub": "budget"})
     out.append({"sub": "shape"})
+    out.append({"sub": "rays"})
+    out += profile_cases(tier)
+    out += history_cases(tier)
     for c in C5.cases(tier):
         if c["sub"] == "adaptive":
             out.append(dict(c, sub="loop"))
@@ -71,7 +110,8 @@ def cases(tier):
 
 
 def check_case(sh, case):
-    {"alloc": _alloc, "budget": _budget, "shape": _shape, "loop": _loop}[case["sub"]](sh, case)
+    {"alloc": _alloc, "budget": _budget, "shape": _shape, "rays": _rays, "loop": _loop, "profile": _profile,
+     "history": _history}[case["sub"]](sh, case)
 
 
 def _criteria():
@@ -104,6 +144,9 @@ def _alloc(sh, case):
     if case["v1"] is not None:
         v_axes = v_axes[:1] + [[V_ALPHA[case["v1"]]]] + v_axes[2:]
     worst = 0.0
+    probe = lambda: [np.asarray(crit.compute_mc_paths(r, np.array(v), np.array(c))).tolist()  # noqa: E731
+                     for r, v, c in ((0.1, [1.0, 0.01], [1.0, 8.0]), (1.0, [50.0], [0.5]), (1e-3, [1e-2, 1e-6, 1.0], [1.0, 8.0, 1e3]))]
+    before = probe()
     for vt in itertools.product(*v_axes):
         vl = np.array(vt, dtype=float)
         for ct in itertools.product(c_alpha, repeat=n):
@@ -130,6 +173,10 @@ def _alloc(sh, case):
                                  f"rmse={rmse}, vl={vl.tolist()}, cl={cl.tolist()}: N={N.tolist()}, sum V/N = {est:.6g} > "
                                  f"rmse^2 - (accepted bias)^2 = {share:.6g} rmse^2 = {budget:.6g}", {"share": share})
                 worst = max(worst, est / budget if budget else 0.0)
+    after = probe()
+    if after != before:  # the allocation is a function of its arguments: the calls in between must not change it
+        sh.violation("C06:alloc:sample-sizes-depend-on-earlier-calls",
+                     f"the same three (rmse, vl, cl) give {before} before and {after} after the enumeration of this case", None)
     sh.outcome((n, case["v0"], case["v1"], round(worst, 6)))
     sh.nontriv()
     if case["n"] == 2 and case["v0"] == 3:
@@ -193,6 +240,213 @@ def _shape(sh, case):
 
 
 # ----------------------------------------------------------------------------------------------------------------------
+# rays: the bias tolerance of the stopping test in every direction of the last three level means
+# ----------------------------------------------------------------------------------------------------------------------
+
+RAY_LETTERS = [0.0, 0.25, 1.0, 4.0]
+
+
+def giles_estimate(ml, alpha):
+    """Giles' estimate of the bias that remains after the last level, written out as the independent reference of the
+    stopping test: max(m_L, m_{L-1}/2^a, m_{L-2}/4^a) / (2^a - 1), the last three level means extrapolated to the last
+    level with the weak rate a and summed over the levels not simulated. Returns (value, name of the dominating term)."""
+    w = 2.0 ** float(alpha)
+    terms = [float(ml[-1]), float(ml[-2]) / w, float(ml[-3]) / (w * w)]
+    k = max(range(3), key=lambda i: (terms[i], -i))
+    return terms[k] / (w - 1.0), ("last-level", "previous-level", "third-last-level")[k]
+
+
+def _rays(sh, case):
+    crit = _criteria()
+    share = variance_share(crit)
+    left = math.sqrt(max(0.0, 1.0 - share))  # what the allocation leaves of rmse for the bias
+    worst = 0.0
+    probe = lambda: [bool(crit.criteria(a, np.array(m), r)) for a in (0.5, 1.0, 2.0) for r in (1.0, 0.1)  # noqa: E731
+                     for m in ([0.3, 0.2, 0.1], [0.01, 0.02, 0.04], [1.0, 0.01, 0.01], [5.0, 0.04, 0.02, 0.01])]
+    before = probe()
+    for alpha in (0.1, 0.25, 0.5, 0.6, 1.0, 2.0):
+        for rmse in RMSES:
+            for d3 in itertools.product(RAY_LETTERS, repeat=3):
+                if not any(d3):
+                    continue
+                for lead in ((), (5.0,), (0.0, 5.0)):
+                    d = np.array(lead + d3, dtype=float)
+                    sh.count("evaluations")
+                    g, dom = giles_estimate(d, alpha)
+                    big = 1e9 * rmse
+                    if crit.criteria(alpha, big * d, rmse):
+                        sup = math.inf
+                    elif not crit.criteria(alpha, 0.0 * d, rmse):
+                        sh.violation("C06:rays:criterion-rejects-zero-bias", f"criteria({alpha}, zeros, {rmse}) is False", None)
+                        continue
+                    else:
+                        lo, hi = 0.0, big
+                        for _ in range(120):
+                            mid = 0.5 * (lo + hi)
+                            if crit.criteria(alpha, mid * d, rmse):
+                                lo = mid
+                            else:
+                                hi = mid
+                        sup = lo
+                    accepted = sup * g / rmse  # largest accepted bias estimate in units of rmse
+                    worst = max(worst, accepted)
+                    if not (accepted <= left * (1 + 1e-6)):
+                        ak = "alpha<0.5" if alpha < 0.5 else "alpha>=0.5"
+                        sh.violation(f"C06:rays:accepted-bias-estimate-squared-plus-variance-share-exceeds-rmse-squared:{dom}-dominates:{ak}",
+                                     f"alpha={alpha}, rmse={rmse}: level means x*{d.tolist()} are accepted up to x={sup:.6g}, i.e. a bias "
+                                     f"estimate max(m_L, m_L-1/2^a, m_L-2/4^a)/(2^a-1) of {accepted:.6f} rmse; squared {accepted ** 2:.4f} + "
+                                     f"variance share {share:.4f} > 1", {"share": share, "direction": d.tolist()})
+            sh.outcome((alpha, rmse, round(min(worst, 1e6), 6)))
+    if probe() != before:  # the stopping test is a function of its arguments
+        sh.violation("C06:rays:verdict-depends-on-earlier-calls", f"the same 24 (alpha, ml, rmse) gave {before} before the enumeration, "
+                     f"{probe()} after", None)
+    sh.nontriv()
+    sh.sample({"sub": "rays", "variance_share": share, "largest_accepted_bias_estimate_over_rmse": worst})
+
+
+# ----------------------------------------------------------------------------------------------------------------------
+# one pricing observed and judged (shared by loop, profile, history)
+# ----------------------------------------------------------------------------------------------------------------------
+
+def observe_price(eng, product, rmse, op="price"):
+    """Runs eng.price (or the fixed-level variant) with the two functions of the criteria object observed."""
+    import warnings
+
+    crit = eng.configuration.convergence_criteria
+    calls = {"criteria": [], "paths": []}
+    orig_criteria, orig_paths = crit.criteria, crit.compute_mc_paths
+
+    def criteria(alpha, ml, rmse_):
+        r = orig_criteria(alpha, ml, rmse_)
+        calls["criteria"].append((float(alpha), np.array(ml, dtype=float).tolist(), bool(r)))
+        return r
+
+    def compute_mc_paths(rmse_, vl, cl):
+        r = orig_paths(rmse_, vl, cl)
+        calls["paths"].append(np.asarray(r).tolist())
+        return r
+
+    crit.criteria, crit.compute_mc_paths = criteria, compute_mc_paths
+    outcome, stats = "returned", None
+    try:
+        with np.errstate(all="ignore"), warnings.catch_warnings():
+            warnings.simplefilter("ignore")
+            if op == "price":
+                stats = eng.price(product, rmse)
+            else:
+                stats = eng.price_with_constant_mc_paths_and_level(product)
+    except C5.Horizon:
+        outcome = "horizon"
+    finally:
+        crit.criteria, crit.compute_mc_paths = orig_criteria, orig_paths
+    return {"calls": calls, "stats": stats, "outcome": outcome, "orig_paths": orig_paths, "crit": crit}
+
+
+def judge_run(sh, sub, suffix, obs, rec, *, Lmax, rmse, rates, alpha_given):
+    """The oracle of the statement's second sentence on one observed pricing. `rates`: which rates the configuration gives
+    ("given" / "alpha-only": the weak rate is alpha_given; "regressed" / "alpha-regressed": it is regressed). Returns the
+    signature of the run (what a history must not change)."""
+    calls, stats = obs["calls"], obs["stats"]
+    regimes = rec.regime_log
+    if obs["outcome"] == "horizon":
+        sh.violation(f"C06:{sub}:no-termination-within-horizon{suffix}",
+                     f"run still simulating after {C5.HORIZON} batches at one level", {"regimes": regimes[:40]})
+    # never above the configured maximum
+    top_sim = max(rec.simulate_levels) if rec.simulate_levels else 0
+    top_next = max(rec.next_level_calls) if rec.next_level_calls else 0
+    if top_sim > Lmax:
+        sh.violation(f"C06:{sub}:simulated-a-level-above-the-maximum{suffix}", f"simulated level {top_sim} > maximum_level {Lmax}",
+                     {"regimes": regimes[:40]})
+    if top_next > Lmax:
+        sh.violation(f"C06:{sub}:created-a-level-above-the-maximum{suffix}", f"next_level up to {top_next} > maximum_level {Lmax}",
+                     {"regimes": regimes[:40]})
+    # the weak rate handed to the stopping test: the configured one, or the regression of the very ml vector it is tested on
+    # (slope of log2(ml[1:]) against the level, floored at 0.5 - the estimator the engine documents)
+    weak_given = rates in WEAK_RATE_GIVEN
+    alpha_refs = []
+    flagged = False
+    for (alpha_used, ml_used, verdict) in calls["criteria"]:
+        if weak_given:
+            alpha_ref = float(alpha_given)
+        else:
+            y = np.log2(np.array(ml_used[1:], dtype=float)) if len(ml_used) > 1 else np.array([])
+            if y.size < 2 or not np.all(np.isfinite(y)):
+                alpha_refs.append(None)
+                sh.count("oracle_inconclusive")
+                continue
+            slope = np.polyfit(np.arange(1, len(ml_used)), y, 1)[0]
+            alpha_ref = max(0.5, -float(slope))
+        alpha_refs.append(alpha_ref)
+        if not flagged and not core.close(alpha_used, alpha_ref, rtol=1e-6, atol=1e-9):
+            flagged = True
+            sh.violation(f"C06:{sub}:stopping-test-evaluated-with-another-weak-rate:{rates}{suffix}",
+                         f"criteria called with alpha={alpha_used!r} on ml={ml_used}; the {'configured' if weak_given else 'regressed'} weak rate is {alpha_ref!r}",
+                         {"regimes": regimes[:40]})
+    sig = None
+    if stats is not None:
+        res = stats.mlmc_results
+        Nl = np.asarray(res.Nl)
+        L = len(Nl) - 1
+        last = calls["criteria"][-1] if calls["criteria"] else None
+        tested = bool(last and len(last[1]) == len(Nl))
+        converged = bool(tested and last[2])
+        sig = (L, tuple(int(x) for x in Nl), converged,
+               tuple((len(m), v) for (_, m, v) in calls["criteria"]), tuple(a for (a, _, _) in calls["criteria"]))
+        if not converged and L != Lmax:
+            exit_kind = "with-a-failed-bias-test" if tested else "without-evaluating-the-bias-test"
+            sh.violation(f"C06:{sub}:returned-below-maximum-level-{exit_kind}{suffix}",
+                         f"returned with L={L} < maximum_level={Lmax}, Nl={Nl.tolist()}, last bias test: {last}",
+                         {"regimes": regimes[:40]})
+        # the bias test, recomputed: the verdict of the criteria object is not taken on trust. Below the maximum level the run
+        # may return only with Giles' bias estimate (written out in giles_estimate, with the reference weak rate) within what
+        # the allocation leaves of rmse^2: estimate^2 + variance share * rmse^2 <= rmse^2.
+        if converged and L != Lmax:
+            a_ref = alpha_refs[-1] if alpha_refs else None
+            if a_ref is None or len(last[1]) < 3:
+                sh.count("oracle_inconclusive")
+            else:
+                share = variance_share(obs["crit"])
+                left = math.sqrt(max(0.0, 1.0 - share)) * rmse
+                est, dom = giles_estimate(last[1], a_ref)
+                sh.count("bias_tests_recomputed")
+                sh.cls(f"{sub}:bias-test-recomputed:{dom}-dominates")
+                if not (est <= left * (1 + 1e-6)):
+                    sh.violation(f"C06:{sub}:returned-below-maximum-level-with-a-bias-estimate-above-the-tolerance:{dom}-dominates{suffix}",
+                                 f"returned with L={L} < maximum_level={Lmax}: level means {last[1]}, weak rate {a_ref!r} give the bias "
+                                 f"estimate {est:.6g} > {left:.6g} = sqrt(rmse^2 - variance share) (rmse={rmse})",
+                                 {"regimes": regimes[:40], "alpha_passed": last[0]})
+        # the means the test was evaluated on are the sample means of the run (the engine may only raise them: its work-around
+        # for vanishing means)
+        if tested:
+            with np.errstate(all="ignore"):
+                ml_rep = np.asarray(res.ml, dtype=float)
+            ml_used = np.asarray(last[1], dtype=float)
+            if ml_rep.shape == ml_used.shape and np.all(np.isfinite(ml_rep)):
+                low = [int(l) for l in range(len(ml_rep))
+                       if ml_used[l] < ml_rep[l] * (1 - 1e-9) - 1e-300 or (l < 3 and not core.close(ml_used[l], ml_rep[l], rtol=1e-9))]
+                if low:
+                    sh.violation(f"C06:{sub}:bias-test-evaluated-on-other-means-than-the-sample-means{suffix}",
+                                 f"levels {low}: tested on {ml_used.tolist()}, the reported sample means are {ml_rep.tolist()}",
+                                 {"regimes": regimes[:40]})
+        # every level has its optimal number of samples within the 1 % rule (recomputed from the reported vl, cl)
+        with np.errstate(all="ignore"):
+            vl = np.asarray(res.vl, dtype=float)
+            cl = np.asarray(res.cl, dtype=float)
+            if np.all(np.isfinite(vl)) and np.all(np.isfinite(cl)):
+                Nstar = np.asarray(obs["orig_paths"](rmse, vl.copy(), cl.copy()), dtype=float)
+                short = [int(l) for l in range(len(Nl)) if Nl[l] < Nstar[l] / 1.01 - 1e-9]
+                if short:
+                    sh.violation(f"C06:{sub}:returned-with-a-level-below-its-optimal-sample-size{suffix}",
+                                 f"levels {short}: Nl={Nl.tolist()} but optimal sizes from the reported vl, cl are {Nstar.tolist()}",
+                                 {"regimes": regimes[:40], "vl": vl.tolist(), "cl": cl.tolist()})
+            else:
+                sh.violation(f"C06:{sub}:reported-statistics-not-finite{suffix}", f"vl={vl.tolist()} cl={cl.tolist()}", {"regimes": regimes[:40]})
+    return sig
+
+
+# ----------------------------------------------------------------------------------------------------------------------
+# loop: the C05 choice exploration
+# ----------------------------------------------------------------------------------------------------------------------
 
 def _loop(sh, case):
     trajectories = set()
@@ -215,24 +469,7 @@ def _loop(sh, case):
 
 
 def run_once(sh, case, chooser):
-    import warnings
-
     eng, rec, product, coupling = C5.build_engine(case, chooser)
-    crit = eng.configuration.convergence_criteria
-    calls = {"criteria": [], "paths": []}
-    orig_criteria, orig_paths = crit.criteria, crit.compute_mc_paths
-
-    def criteria(alpha, ml, rmse):
-        r = orig_criteria(alpha, ml, rmse)
-        calls["criteria"].append((float(alpha), np.array(ml, dtype=float).tolist(), bool(r)))
-        return r
-
-    def compute_mc_paths(rmse, vl, cl):
-        r = orig_paths(rmse, vl, cl)
-        calls["paths"].append(np.asarray(r).tolist())
-        return r
-
-    crit.criteria, crit.compute_mc_paths = criteria, compute_mc_paths
     real_choose = chooser.choose
 
     def guarded(arity, label=""):
@@ -242,70 +479,299 @@ def run_once(sh, case, chooser):
         return real_choose(arity, label)
 
     chooser.choose = guarded
-    Lmax = case["Lmax"]
-    outcome = "returned"
-    stats = None
     try:
-        with np.errstate(all="ignore"), warnings.catch_warnings():
-            warnings.simplefilter("ignore")
-            stats = eng.price(product, case["rmse"])
-    except C5.Horizon:
-        outcome = "horizon"
-        sh.violation("C06:loop:no-termination-within-horizon",
-                     f"run still simulating after {C5.HORIZON} batches at one level", {"regimes": rec.regime_log[:40]})
+        obs = observe_price(eng, product, case["rmse"])
     finally:
         chooser.choose = real_choose
-        crit.criteria, crit.compute_mc_paths = orig_criteria, orig_paths
-    regimes = rec.regime_log
-    # never above the configured maximum
-    top_sim = max(rec.simulate_levels) if rec.simulate_levels else 0
-    top_next = max(rec.next_level_calls) if rec.next_level_calls else 0
-    if top_sim > Lmax:
-        sh.violation("C06:loop:simulated-a-level-above-the-maximum", f"simulated level {top_sim} > maximum_level {Lmax}",
-                     {"regimes": regimes[:40]})
-    if top_next > Lmax:
-        sh.violation("C06:loop:created-a-level-above-the-maximum", f"next_level up to {top_next} > maximum_level {Lmax}",
-                     {"regimes": regimes[:40]})
-    # the weak rate handed to the stopping test: the configured one, or the regression of the very ml vector it is tested on
-    # (slope of log2(ml[1:]) against the level, floored at 0.5 - the estimator the engine documents)
-    for (alpha_used, ml_used, verdict) in calls["criteria"]:
-        if case.get("rates", "given") == "given":
-            alpha_ref = 1.0
-        else:
-            y = np.log2(np.array(ml_used[1:], dtype=float)) if len(ml_used) > 1 else np.array([])
-            if y.size < 2 or not np.all(np.isfinite(y)):
+    sig = judge_run(sh, "loop", "", obs, rec, Lmax=case["Lmax"], rmse=case["rmse"], rates=case.get("rates", "given"),
+                    alpha_given=1.0)
+    traj = sig[:3] if sig is not None else ()
+    return traj, obs["outcome"]
+
+
+# ----------------------------------------------------------------------------------------------------------------------
+# scripted level means: profile (one pricing) and history (several pricings in one process)
+# ----------------------------------------------------------------------------------------------------------------------
+
+MULTS = [0.0, 0.125, 8.0, 64.0]  # a level mean that vanishes / dips / rises above the previous ones / dominates everything
+DECAYS = [0.6, 1.0, 2.0]
+RATE_KINDS = ["regressed", "given", "alpha-only", "alpha-regressed"]
+# "bg-index": all three given through the library's helper compute_convergence_rates(Blumenthal-Getoor index), as its scripts do
+PROFILE_RATE_KINDS = RATE_KINDS + ["bg-index"]
+WEAK_RATE_GIVEN = ("given", "alpha-only", "bg-index")
+
+
+def bg_index(a):
+    return max(0.0, 2.0 - 2.0 * a)  # the index whose weak rate 1 - Y/2 is a (a <= 1), 0 beyond
+CRIT_KINDS = ["default", "object", "functions", "to-max"]
+
+
+class LevelChooser:
+    """Environment of the scripted coupling for a scripted profile: the regime of (level, batch) is the regime of the level."""
+
+    def choose(self, arity, label=""):
+        parts = label.split(":")
+        lvl, b = int(parts[1][1:]), int(parts[2][1:])
+        if b > C5.HORIZON:
+            raise C5.Horizon(label)
+        return min(lvl, arity - 1)
+
+
+def scenario(a, mult=None, *, rates="regressed", rmse=0.2, sd=1e-3, L0=2, Lmax=6, N0=4, crit="default", c=0.5):
+    """JSON-able description of one pricing: level means c 2^(-a l) mult_l, level standard deviations sd rmse 2^(-l/2),
+    cost 2^l per sample, and the public options of the configuration."""
+    return {"a": a, "mult": {str(k): v for k, v in (mult or {}).items()}, "c": c, "rates": rates, "rmse": rmse, "sd": sd,
+            "L0": L0, "Lmax": Lmax, "N0": N0, "crit": crit, "alpha_given": (1.0 - bg_index(a) / 2.0) if rates == "bg-index" else a}
+
+
+def level_regimes(sc):
+    n = sc["Lmax"] + 2  # one entry above the maximum so that a run that goes there is reported, not crashed
+    return [(f"l{l}", sc["c"] * 2.0 ** (-sc["a"] * l) * float(sc["mult"].get(str(l), 1.0)),
+             sc["sd"] * sc["rmse"] * 2.0 ** (-0.5 * l), False, False) for l in range(n)]
+
+
+def make_rates(kind, alpha):
+    from rpylib.montecarlo.configuration import ConvergenceRates, compute_convergence_rates
+
+    if kind == "bg-index":
+        return compute_convergence_rates(2.0 - 2.0 * alpha)
+    if kind == "given":
+        return ConvergenceRates(alpha=alpha, beta=1.0, gamma=1.0)
+    if kind == "alpha-only":
+        return ConvergenceRates(alpha=alpha)
+    if kind == "alpha-regressed":
+        return ConvergenceRates(beta=1.0, gamma=1.0)
+    return ConvergenceRates()
+
+
+def make_criteria(kind):
+    from rpylib.montecarlo.multilevel import criteria as K
+
+    if kind == "object":
+        return K.GilesConvergenceCriteria()
+    if kind == "functions":
+        return K.ConvergenceCriteria(criteria=K.criteria_giles, compute_mc_paths=K.compute_mc_paths_giles)
+    if kind == "to-max":
+        return K.ConvergenceCriteria(criteria=K.criteria_run_to_maximum_level, compute_mc_paths=K.compute_mc_paths_giles)
+    return None
+
+
+FIRST_ROUTES = ["explicit", "default", "none"]  # how ConfigurationMultiLevel gets its convergence rates
+LATER_ROUTES = ["same-config", "same-engine", "deepcopy", "setters"]  # how a later pricing re-uses the earlier objects
+
+
+def make_configuration(sc, route):
+    from rpylib.montecarlo.configuration import ConfigurationMultiLevel
+
+    kw = dict(initial_level=sc["L0"], maximum_level=sc["Lmax"], initial_mc_paths=sc["N0"], seed=None, nb_of_processes=1)
+    crit = make_criteria(sc["crit"])
+    if crit is not None:
+        kw["convergence_criteria"] = crit
+    if route == "explicit":
+        kw["convergence_rates"] = make_rates(sc["rates"], sc["alpha_given"])
+    elif route == "none":
+        kw["convergence_rates"] = None
+    elif route != "default":
+        raise ValueError(route)
+    return ConfigurationMultiLevel(**kw)
+
+
+def effective(sc, route, prev_sc):
+    """The scenario a later pricing really runs: a route that re-uses the earlier configuration keeps its options."""
+    if prev_sc is not None and route in ("same-config", "same-engine", "deepcopy"):
+        return dict(sc, **{k: prev_sc[k] for k in ("rates", "alpha_given", "L0", "Lmax", "N0", "crit")})
+    if route in ("default", "none"):
+        return dict(sc, rates="regressed")
+    return dict(sc)
+
+
+def price_step(sh, sub, suffix, sc, route, prev=None, op="price"):
+    """One pricing of the scenario sc reached by `route`; prev = (engine, scenario) of the pricing before. Returns
+    (engine, effective scenario, signature)."""
+    import copy
+
+    from rpylib.montecarlo.configuration import ConvergenceRates
+    from rpylib.montecarlo.multilevel.criteria import GilesConvergenceCriteria
+    from rpylib.montecarlo.multilevel.engine import Engine
+
+    prev_eng, prev_sc = prev if prev is not None else (None, None)
+    sc = effective(sc, route, prev_sc)
+    rec = D.Recorder(LevelChooser(), regimes=level_regimes(sc))
+    coupling = D.ScriptedCoupling(rec, df=1.0)
+    product = D.make_product("forward", notional=1.0)
+    if route in FIRST_ROUTES:
+        eng = Engine(configuration=make_configuration(sc, route), coupling_process=coupling)
+    elif route == "same-config":
+        eng = Engine(configuration=prev_eng.configuration, coupling_process=coupling)
+    elif route == "deepcopy":
+        eng = Engine(configuration=copy.deepcopy(prev_eng.configuration), coupling_process=coupling)
+    elif route == "same-engine":
+        eng = prev_eng
+        eng.coupling_process = coupling
+    elif route == "setters":
+        conf = prev_eng.configuration
+        conf.convergence_rates = make_rates(sc["rates"], sc["alpha_given"])
+        conf.convergence_criteria = make_criteria(sc["crit"]) or GilesConvergenceCriteria()
+        conf.initial_level, conf.maximum_level, conf.initial_mc_paths = sc["L0"], sc["Lmax"], sc["N0"]
+        eng = Engine(configuration=conf, coupling_process=coupling)
+    else:
+        raise ValueError(route)
+    obs = observe_price(eng, product, sc["rmse"], op=op)
+    sh.count("runs")
+    if op != "price":
+        top = max(rec.simulate_levels) if rec.simulate_levels else 0
+        if top > sc["Lmax"]:
+            sh.violation(f"C06:{sub}:fixed-level-pricing-simulated-a-level-above-the-maximum{suffix}",
+                         f"simulated level {top} > maximum_level {sc['Lmax']}", None)
+        return eng, sc, None
+    sh.count("evaluations")
+    sig = judge_run(sh, sub, suffix, obs, rec, Lmax=sc["Lmax"], rmse=sc["rmse"], rates=sc["rates"], alpha_given=sc["alpha_given"])
+    return eng, sc, sig
+
+
+def mult_patterns(first, Lmax, doubles):
+    """All multiplier patterns whose first non-unit level is `first` (None: the plain geometric profile)."""
+    if first is None:
+        return [{}]
+    out = [{first: f} for f in MULTS]
+    seconds = [] if doubles == "none" else ([first + 1] if doubles == "adjacent" else list(range(first + 1, Lmax + 1)))
+    for k in seconds:
+        if k <= Lmax:
+            out += [{first: f, k: g} for f in MULTS for g in MULTS]
+    return out
+
+
+def _profile(sh, case):
+    sigs = set()
+    for mult in mult_patterns(case["first"], case["Lmax"], case["doubles"]):
+        for rmse in case["rmses"]:
+            for rates in case["rates"]:
+                for sd in case["sds"]:
+                    for crit in case["crits"]:
+                        for (L0, N0) in case["starts"]:
+                            sc = scenario(case["a"], mult, rates=rates, rmse=rmse, sd=sd, L0=L0, Lmax=case["Lmax"], N0=N0, crit=crit)
+                            _, _, sig = price_step(sh, "profile", f":{crit}-criteria" if crit != "default" else "", sc, "explicit")
+                            sigs.add(sig)
+                            sh.outcome(sig[:3] if sig else None)
+                            if sig is not None:
+                                sh.cls("profile:" + ("converged" if sig[2] else "maximum-level") + (":bumped" if mult else ":plain"))
+    sh.states += len(sigs)
+    if len(sigs) >= 2:
+        sh.nontriv()
+    if case["first"] == 3 and case["a"] == 1.0:
+        sh.sample({"sub": "profile", "case": case, "distinct_runs": len(sigs)})
+
+
+def same_signature(a, b):
+    if a is None or b is None:
+        return a is b
+    return a[:4] == b[:4] and len(a[4]) == len(b[4]) and all(core.close(x, y, rtol=1e-9, atol=1e-12) for x, y in zip(a[4], b[4]))
+
+
+POSITION = ["first", "second", "third"]
+
+
+def _history(sh, case):
+    import json
+
+    alone = {}
+
+    def alone_signature(sc):
+        k = json.dumps(sc, sort_keys=True)
+        if k not in alone:
+            alone[k] = price_step(sh, "history", ":alone", sc, "explicit")[2]
+        return alone[k]
+
+    sigs = set()
+    for seq in histories(case):
+        prev = None
+        for i, (sc, route, op) in enumerate(seq):
+            suffix = f":{POSITION[i]}-pricing:{route}"
+            eng, sc_eff, sig = price_step(sh, "history", suffix, sc, route, prev=prev, op=op)
+            prev = (eng, sc_eff)
+            if op != "price":
                 continue
-            slope = np.polyfit(np.arange(1, len(ml_used)), y, 1)[0]
-            alpha_ref = max(0.5, -float(slope))
-        if not core.close(alpha_used, alpha_ref, rtol=1e-6, atol=1e-9):
-            sh.violation(f"C06:loop:stopping-test-evaluated-with-another-weak-rate:{case.get('rates', 'given')}",
-                         f"criteria called with alpha={alpha_used!r} on ml={ml_used}; the {'configured' if case.get('rates', 'given') == 'given' else 'regressed'} weak rate is {alpha_ref!r}",
-                         {"regimes": regimes[:40]})
-            break
-    traj = ()
-    if stats is not None:
-        res = stats.mlmc_results
-        Nl = np.asarray(res.Nl)
-        L = len(Nl) - 1
-        last = calls["criteria"][-1] if calls["criteria"] else None
-        converged = bool(last and last[2] and len(last[1]) == len(Nl))
-        traj = (L, tuple(int(x) for x in Nl), converged)
-        if not converged and L != Lmax:
-            exit_kind = "without-evaluating-the-bias-test" if (last is None or len(last[1]) != len(Nl)) else "with-a-failed-bias-test"
-            sh.violation(f"C06:loop:returned-below-maximum-level-{exit_kind}",
-                         f"returned with L={L} < maximum_level={Lmax}, Nl={Nl.tolist()}, last bias test: {last}",
-                         {"regimes": regimes[:40]})
-        # every level has its optimal number of samples within the 1 % rule (recomputed from the reported vl, cl)
-        with np.errstate(all="ignore"):
-            vl = np.asarray(res.vl, dtype=float)
-            cl = np.asarray(res.cl, dtype=float)
-            if np.all(np.isfinite(vl)) and np.all(np.isfinite(cl)):
-                Nstar = np.asarray(orig_paths(case["rmse"], vl.copy(), cl.copy()), dtype=float)
-                short = [int(l) for l in range(len(Nl)) if Nl[l] < Nstar[l] / 1.01 - 1e-9]
-                if short:
-                    sh.violation("C06:loop:returned-with-a-level-below-its-optimal-sample-size",
-                                 f"levels {short}: Nl={Nl.tolist()} but optimal sizes from the reported vl, cl are {Nstar.tolist()}",
-                                 {"regimes": regimes[:40], "vl": vl.tolist(), "cl": cl.tolist()})
+            ref = alone_signature(sc_eff)
+            sigs.add(sig)
+            sh.outcome((i, sig[:3] if sig else None))
+            if not same_signature(sig, ref):
+                earlier = "+".join(f"{o}/{r}" for (_, r, o) in seq[:i]) or "nothing"
+                sh.violation(f"C06:history:pricing-differs-from-the-same-pricing-alone:{sc_eff['rates']}{suffix}",
+                             f"after {earlier}: (L, Nl, converged, bias tests, weak rates) = {sig}; the same pricing alone in fresh "
+                             f"objects gives {ref}", {"scenario": sc_eff, "earlier": [s for (s, _, _) in seq[:i]]})
+            if i > 0:
+                sh.cls(f"history:{route}")
+    sh.states += len(sigs)
+    if len(sigs) >= 2:
+        sh.nontriv()
+    if case.get("sample"):
+        sh.sample({"sub": "history", "first": case["first"], "histories": len(histories(case)), "distinct_runs": len(sigs)})
+
+
+def later_steps(prev_sc, seconds, menu):
+    """Every (scenario, route) a pricing after prev_sc ranges over. menu: list of (route, rates or None = inherited)."""
+    out = []
+    for sc in seconds:
+        for route, rates in menu:
+            if route in ("same-config", "same-engine", "deepcopy"):
+                out.append((dict(sc), route, "price"))
+            elif route in ("default", "none"):
+                out.append((dict(sc, rates="regressed"), route, "price"))
             else:
-                sh.violation("C06:loop:reported-statistics-not-finite", f"vl={vl.tolist()} cl={cl.tolist()}", {"regimes": regimes[:40]})
-    return traj, outcome
+                out.append((dict(sc, rates=rates), route, "price"))
+    return out
+
+
+def histories(case):
+    first = (case["first"], case["route1"], case["op1"])
+    out = []
+    for step2 in later_steps(case["first"], case["seconds"], case["menu"]):
+        out.append([first, step2])
+        if case.get("thirds"):
+            for step3 in later_steps(step2[0], case["thirds"], case["menu3"]):
+                out.append([first, step2, step3])
+    return out
+
+
+SECOND_MENU = [("same-config", None), ("same-engine", None), ("deepcopy", None), ("default", None), ("none", None),
+               ("explicit", "regressed"), ("setters", "regressed"), ("setters", "given"), ("explicit", "alpha-only"),
+               ("setters", "alpha-regressed")]
+THIRD_MENU = [("same-config", None), ("same-engine", None), ("default", None), ("setters", "regressed")]
+
+
+def history_scenarios(thorough):
+    """fast decay / slow decay / a level mean that rises; the later pricings also with other options (levels, paths, rmse)."""
+    firsts = [scenario(2.0), scenario(0.6), scenario(1.0, {4: 8.0})]
+    seconds = [scenario(0.6), scenario(2.0, N0=6, Lmax=5), scenario(1.0, {3: 8.0, 4: 8.0}, rmse=0.1)]
+    if thorough:
+        firsts += [scenario(1.0), scenario(1.0, {3: 0.0})]
+        seconds += [scenario(1.0, rmse=0.05, Lmax=8), scenario(0.6, {5: 64.0}, L0=3)]
+    return firsts, seconds
+
+
+def profile_cases(tier):
+    thorough = tier == "thorough"
+    out = []
+    for Lmax in ((6, 8) if thorough else (6,)):
+        for a in DECAYS:
+            out.append({"sub": "profile", "a": a, "first": None, "Lmax": Lmax, "doubles": "none", "rmses": [0.05, 0.2, 1.0],
+                        "rates": PROFILE_RATE_KINDS, "sds": [1e-3, 1.0], "crits": CRIT_KINDS, "starts": [[2, 4], [3, 7]]})
+            for first in range(0, Lmax + 1):
+                out.append({"sub": "profile", "a": a, "first": first, "Lmax": Lmax, "doubles": "all" if thorough else "adjacent",
+                            "rmses": [0.05, 0.2] if thorough else [0.2], "rates": ["regressed", "given"],
+                            "sds": [1e-3, 1.0] if thorough else [1e-3], "crits": ["default"], "starts": [[2, 4]]})
+    return out
+
+
+def history_cases(tier):
+    thorough = tier == "thorough"
+    firsts, seconds = history_scenarios(thorough)
+    out = []
+    for sc in firsts:
+        for rates in RATE_KINDS:
+            for route1 in (FIRST_ROUTES if rates == "regressed" else ["explicit"]):
+                for op1 in (("price", "fixed") if (rates == "regressed" and route1 == "default") else ("price",)):
+                    out.append({"sub": "history", "first": dict(sc, rates=rates), "route1": route1, "op1": op1, "seconds": seconds,
+                                "menu": SECOND_MENU, "thirds": seconds[:2] if thorough else [], "menu3": THIRD_MENU,
+                                "sample": sc["a"] == 2.0 and rates == "regressed" and route1 == "default" and op1 == "price"})
+    return out
